@@ -45,3 +45,35 @@ package weighted_sum
 //@   property C07 C18
 //@   nopanic
 //@   refines model.BiasListener.Merge with validParams=wsValid, coversId=wsCovers, accepts=wsAccepts, acceptsAny=wsAcceptsAny
+
+// ---- the method itself (C03)
+
+// wsum: the defining weighted sum; usum: the sum of signed values without the weights (what the code computes, see K1)
+//@ spec wsum(a model.AlternativeWithCriteria, cs []model.WeightedCriterion, n int) real = n <= 0 ? 0.0 : wsum(a, cs, n - 1) + cs[n - 1].Weight * model.signed(a, cs[n - 1].Criterion)
+//@ spec usum(a model.AlternativeWithCriteria, cs []model.WeightedCriterion, n int) real = n <= 0 ? 0.0 : usum(a, cs, n - 1) + model.signed(a, cs[n - 1].Criterion)
+
+//@ func WeightedSum
+//@   property C03
+//@   ensures [single_value] fresh(result) && typeis(result.Evaluation, model.EvaluationSingleValue) && result.Alternative == alternative
+//@   ensures [weighted] model.val(*result) == wsum(alternative, criteria, len(criteria))
+//@   ensures [unweighted_sum] model.val(*result) == usum(alternative, criteria, len(criteria))
+//@   loop 1 invariant [weighted] total == wsum(alternative, criteria, iter)
+//@   loop 1 invariant [unweighted_sum] total == usum(alternative, criteria, iter)
+
+// the per-alternative evaluation closure of Evaluate: WeightedSum of the alternative over the parameters' weighted criteria
+//@ func (*WeightedSumPreferenceFunc).Evaluate$1
+//@   property C03
+//@   requires params.weightedCriteria != nil
+//@   ensures [is_weighted_sum] result != nil && typeis(result.Evaluation, model.EvaluationSingleValue) && result.Alternative == *alternative
+//@             && model.val(*result) == usum(*alternative, *params.weightedCriteria, len(*params.weightedCriteria))
+
+//@ func (*WeightedSumPreferenceFunc).Evaluate
+//@   property C03 C01 C04
+//@   requires [distinct] forall i int, j int :: 0 <= i && i < j && j < len(dmp.ConsideredAlternatives) ==> dmp.ConsideredAlternatives[i].Id != dmp.ConsideredAlternatives[j].Id
+//@   requires [params] typeis(dmp.MethodParameters, weightedSumParams) && dmp.MethodParameters.(weightedSumParams).weightedCriteria != nil
+//@   ensures [one_entry_each] result != nil && len(*result) == len(dmp.ConsideredAlternatives)
+//@   ensures [all_considered_present] forall j int :: 0 <= j && j < len(dmp.ConsideredAlternatives) ==> exists i int :: 0 <= i && i < len(*result) && (*result)[i].Alternative == dmp.ConsideredAlternatives[j]
+//@   ensures [C04 ordered_by_value_then_id] forall i int, j int :: 0 <= i && i < j && j < len(*result) ==> !model.ordered((*result)[j].AlternativeResult, (*result)[i].AlternativeResult)
+//@   ensures [C01 no_self_no_duplicates] forall i int, m int :: 0 <= i && i < len(*result) && 0 <= m && m < len((*result)[i].BetterThanOrSameAs) ==>
+//@             (*result)[i].BetterThanOrSameAs[m] != (*result)[i].Alternative.Id
+//@             && (forall q int :: m < q && q < len((*result)[i].BetterThanOrSameAs) ==> (*result)[i].BetterThanOrSameAs[m] != (*result)[i].BetterThanOrSameAs[q])
